@@ -123,15 +123,26 @@ func (g *SymbolGraph) RemoveEdge(from, to graphs.SymbolKey, kind *SymbolEdgeKind
 		}
 	}
 
+	// Edges are keyed by base ID, so the adjacency entries are dropped by base ID as well;
+	// deleting by full (versioned) key would leave stale entries behind when the caller's key
+	// carries a different file version than the one the edge was added with
 	if depsMap, ok := g.deps[fromBase]; ok {
-		delete(depsMap, to)
+		for depKey := range depsMap {
+			if depKey.BaseId() == toBase {
+				delete(depsMap, depKey)
+			}
+		}
 		if len(depsMap) == 0 {
 			delete(g.deps, fromBase)
 		}
 	}
 
 	if revMap, ok := g.revDeps[toBase]; ok {
-		delete(revMap, from)
+		for revKey := range revMap {
+			if revKey.BaseId() == fromBase {
+				delete(revMap, revKey)
+			}
+		}
 		if len(revMap) == 0 {
 			delete(g.revDeps, toBase)
 		}
